@@ -803,7 +803,13 @@ where
         let mut futs = vec![];
         for (_, cmd) in slotted_kvs {
             let resp = Resp::Arr(Array::Arr(cmd));
-            let (sub_cmd_ctx, fut) = factory.create_with_ctx(cmd_ctx.get_context(), resp);
+            let (mut sub_cmd_ctx, fut) = factory.create_with_ctx(cmd_ctx.get_context(), resp);
+            // A MSETNX forwarded by a peer proxy (UMFORWARD) is regrouped here again:
+            // keep the redirection mark so that its values are not compressed twice
+            // and the redirection limit keeps counting down.
+            if let Some(times) = cmd_ctx.get_redirection_times() {
+                sub_cmd_ctx.set_redirection_times(times);
+            }
             futs.push(fut);
             self.handle_single_key_data_cmd(sub_cmd_ctx);
         }
@@ -1101,7 +1107,16 @@ where
 
     fn handle_single_key_data_cmd(&self, cmd_ctx: CmdCtx) {
         let mut cmd_ctx = cmd_ctx;
-        match self.compressor.try_compressing_cmd_ctx(&mut cmd_ctx) {
+        // A command that arrived through UMFORWARD (active redirection) has already been
+        // checked and compressed by the proxy that received it from the client.
+        // Compressing it again would store the value compressed twice,
+        // while the reply is only decompressed once.
+        let compress_res = if cmd_ctx.get_redirection_times().is_some() {
+            Ok(())
+        } else {
+            self.compressor.try_compressing_cmd_ctx(&mut cmd_ctx)
+        };
+        match compress_res {
             Ok(())
             | Err(CompressionError::UnsupportedCmdType)
             | Err(CompressionError::Disabled) => (),
